@@ -32,6 +32,7 @@ type Result struct {
 	Traces      int                    `json:"traces_validated_against_impl"`
 	Notes       []string               `json:"notes,omitempty"`
 	distinct    map[string]bool
+	perKey      map[string]int
 }
 
 func (r *Result) seen(key string) {
@@ -41,8 +42,14 @@ func (r *Result) seen(key string) {
 	r.distinct[key] = true
 }
 
+// fail records a failure: at most 8 per key (so that a recorded finding that many inputs hit cannot
+// crowd out a different failure) and 200 in all
 func (r *Result) fail(key, what string, input interface{}) {
-	if len(r.Failures) < 50 {
+	if r.perKey == nil {
+		r.perKey = map[string]int{}
+	}
+	r.perKey[key]++
+	if r.perKey[key] <= 8 && len(r.Failures) < 200 {
 		r.Failures = append(r.Failures, Failure{key, what, input})
 	}
 }
